@@ -1,5 +1,6 @@
 CONSTANT W = 3
 CONSTANT MODE = "mul"
+CONSTANT RNG = 1
 SPECIFICATION Spec
 INVARIANT MulCorrect
 INVARIANT SignCorrect
